@@ -395,6 +395,11 @@ func (w *worker) runWithBackoffRetry(ctx context.Context, receiver resultReceive
 		if count, scanErr = w.run(ctx, receiver); scanErr == nil {
 			return true, nil
 		}
+		if receiver.delivered() {
+			// a part of this partition has gone out to the client already, scanning it
+			// again would send those keys twice: the error ends the stream instead
+			return false, scanErr
+		}
 		return false, nil
 	})
 
